@@ -38,7 +38,7 @@ import subprocess
 import sys
 import types
 
-sys.path.insert(0, "/verif")
+sys.path.insert(0, __import__("os").path.dirname(__import__("os").path.dirname(__import__("os").path.dirname(__import__("os").path.abspath(__file__)))))
 
 from harness import dump  # noqa: E402
 from harness.gates import GATES  # noqa: E402
